@@ -650,7 +650,7 @@ func (c *EvalCtx) evalCall(e *ECall) TV {
 		if m.T != nil {
 			if mt, ok := m.T.Underlying().(*types.Map); ok {
 				hp, _, _ := s.MapHeaps(mt)
-				return TV{Term: "(select (select " + c.st.get(hp) + " " + m.Term + ") " + k.Term + ")", Sort: "Bool", T: boolT}
+				return TV{Term: "(and (not (= " + m.Term + " 0)) (select (select " + c.st.get(hp) + " " + m.Term + ") " + k.Term + "))", Sort: "Bool", T: boolT}
 			}
 		}
 		if m.G != nil {
